@@ -11,7 +11,7 @@ package bitswap
 // request that is already fulfilled is never overwritten.
 
 //@ func (*SampleBlock).UnmarshalFn$1
-//@   property C10 C06 C03
+//@   property C10 C06 C03 C01
 //@   requires sb != nil
 //@   modifies sb
 //@   ensures sb.ID == old(sb.ID)
@@ -21,7 +21,7 @@ package bitswap
 //@   ensures err == nil && old(sb.Container.Proof) == nil ==> sb.Container.Proof != nil && nmtIncl1(deref(sb.Container.Proof), ((sb.ID.ShareIndex >= len(root.RowRoots)/2 || sb.ID.RowID.RowIndex >= len(root.RowRoots)/2) ? libshare.ParitySharesNamespace.data : sb.Container.Share.data[0:29]), sb.Container.Share.data, (sb.Container.ProofType == 0 ? root.RowRoots[uint(sb.ID.RowID.RowIndex)] : root.ColumnRoots[uint(sb.ID.ShareIndex)]))
 
 //@ func (*RowBlock).UnmarshalFn$1
-//@   property C10 C06
+//@   property C10 C06 C01
 //@   requires rb != nil && 0 <= rb.ID.RowIndex && rb.ID.RowIndex < len(root.RowRoots)
 //@   modifies rb
 //@   havoc $RowVerified
@@ -74,7 +74,7 @@ package bitswap
 //@ pure func rangeEmpty(c shwap.RangeNamespaceData) bool = c.Shares == nil && c.FirstIncompleteRowProof == nil && c.LastIncompleteRowProof == nil
 
 //@ func (*RangeNamespaceDataBlock).UnmarshalFn$1
-//@   property C10 C06
+//@   property C10 C06 C01
 //@   requires rndb != nil && root != nil
 //@   modifies rndb
 //@   havoc $RangeVerified
